@@ -104,9 +104,8 @@ UnitOutcomes(s, env, u, mav) ==
       [] u.op = "ese"   -> Write(s, u, 8, [s EXCEPT !.ese = ToBits(u.v, 8)])
       [] u.op = "eseq"  -> Ok(s, <<Num(FromBits(s.ese))>>)
       [] u.op = "esrq"  -> Ok([s EXCEPT !.esr = {}], <<Num(FromBits(s.esr))>>)
-      [] u.op = "opc"   -> \* sets bit 0; recording the -800 event in the queue is permitted, not required
+      [] u.op = "opc"   -> \* sets bit 0 and records the -800 operation-complete event in the error/event queue
                            Ok([s EXCEPT !.esr = s.esr \cup {0}, !.queue = PushPost(s.queue, env.cap, Err(-800, 0))], <<>>)
-                           \cup Ok([s EXCEPT !.esr = s.esr \cup {0}], <<>>)
       [] u.op = "opcq"  -> Ok(s, <<Num(1)>>)
       [] u.op = "rst"   -> Ok(s, <<>>)
       [] u.op = "wai"   -> Ok(s, <<>>)
